@@ -2,6 +2,7 @@ package props
 
 import (
 	"fmt"
+	"reflect"
 	"sort"
 	"strings"
 	"testing"
@@ -124,7 +125,10 @@ func (g *gWorld) applyMap1(op *gOp, ent *gEnt, targetOK func(int) bool) string {
 func (g *gWorld) applyExchange(op *gOp, ent *gEnt, targetOK func(int) bool) string {
 	add, rem := op.Ty, op.Ty2
 	relAdd := relIn(add)
-	ex := generic.NewExchange(g.Wg).Adds(compsOf(add)...).Removes(compsOf(rem)...)
+	addC, remC := compsOf(add), compsOf(rem)
+	ex := generic.NewExchange(g.Wg).Adds(addC...).Removes(remC...)
+	scribbleComps(addC) // the argument slices are the caller's: it may reuse them at once
+	scribbleComps(remC)
 	addIDs, remIDs := g.mapIDs(add), g.mapIDs(rem)
 	switch op.N % 5 {
 	case 0: // NewEntity
@@ -398,7 +402,9 @@ func (g *gWorld) applyFilter(op *gOp, ad *gAdapter, targetOK func(int) bool) str
 				}
 				ts = append(ts, t)
 			}
-			f.Optional(compsOf(ts)...)
+			cs := compsOf(ts)
+			f.Optional(cs...)
+			scribbleComps(cs)
 			for _, t := range ts {
 				st.optional[t] = true
 			}
@@ -410,7 +416,9 @@ func (g *gWorld) applyFilter(op *gOp, ad *gAdapter, targetOK func(int) bool) str
 			for _, t := range s.T {
 				ts = append(ts, tGX0+t%3)
 			}
-			f.With(compsOf(ts)...)
+			cs := compsOf(ts)
+			f.With(cs...)
+			scribbleComps(cs)
 			st.with = append(st.with, ts...)
 		case "without":
 			if st.registered || st.exclusive {
@@ -424,7 +432,9 @@ func (g *gWorld) applyFilter(op *gOp, ad *gAdapter, targetOK func(int) bool) str
 				}
 				ts = append(ts, t)
 			}
-			f.Without(compsOf(ts)...)
+			cs := compsOf(ts)
+			f.Without(cs...)
+			scribbleComps(cs)
 			st.without = append(st.without, ts...)
 		case "exclusive":
 			if st.registered || len(st.without) > 0 {
@@ -462,6 +472,12 @@ func (g *gWorld) applyFilter(op *gOp, ad *gAdapter, targetOK func(int) bool) str
 				f.WithRelation(allStaticTypes[rt])
 			}
 			st.relType = rt
+		case "late":
+			// a component type the world has not seen yet is registered NOW (after the filter may have
+			// been compiled or registered) and given to an entity the filter's include list matches
+			if msg := g.lateStep(s, included); msg != "" {
+				return msg
+			}
 		case "register":
 			if st.registered {
 				continue
@@ -715,7 +731,7 @@ func (g *gWorld) genGenericOp(rt *rapid.T, focus int) gOp {
 		op.T = g.pickTargetIdx(rt, true)
 	case "filter":
 		ns := rapid.IntRange(1, 7).Draw(rt, "nscript")
-		sk := []string{"optional", "with", "without", "exclusive", "query", "query", "query", "register", "unregister"}
+		sk := []string{"optional", "with", "without", "exclusive", "exclusive", "query", "query", "query", "register", "unregister", "late"}
 		if ad.HasRel {
 			sk = append(sk, "relation", "relation", "two", "two", "query")
 		}
@@ -839,4 +855,67 @@ func TestC18(t *testing.T) {
 		// an ID-based call that accepts illegal arguments is C10's business; the case ends there
 		Owns: func(msg string) bool { return !strings.Contains(msg, "HARNESS: the ID-based equivalent") },
 		Rule: fmt.Sprintf("generated code instantiates MapN/FilterN/QueryN for every arity 0-12 in natural order, reversed order and with the relation type at a varying position (%d instantiations over 17 static types), plus Map, Exchange; generated op histories drive a world Wg through the generic calls and a lock-step world Wc through the ID-based calls the documentation names as equivalent (creation with/without values and targets, batch creation, Add/Assign/Remove, batch variants, RemoveEntities(exclusive), Map.Set/SetRelation/SetRelationBatch(Q), Exchange.*); after every op both worlds are compared completely (alive, masks, every component's bytes, relation targets, returned handles and counts). MapN.Get/GetUnchecked and QueryN.Get must be pointer-identical, position by position, to World.Get of the declared type (nil <=> absent). Filter scripts call Optional/With/Without/Exclusive/WithRelation(target?) before and BETWEEN queries, Register/Unregister, queries with a call-time target, and two queries open at once with different targets; 15 classes of illegal calls (removed entities and targets, present/absent components, counts <= 0, relation calls on non-relation or missing components) must panic exactly like their ID-based equivalents and change nothing; every query's entity set, Count and Relation() must equal those of the core MaskFilter/RelationFilter built from the builder state at query-build time; non-trivial = a filter queried again after its builder was modified or used, two open queries, an optional component absent on a visited entity, or a Get on arity >= 2; every adapter is exercised in every run (round-robin)", len(gAdapters))})
+}
+
+// scribbleComps overwrites a component list after it was passed to a builder call.
+func scribbleComps(cs []generic.Comp) {
+	for i := range cs {
+		cs[i] = allStaticTypes[(i*3+nST-1)%nST]
+	}
+}
+
+// component types that are NOT registered when the worlds are created
+type (
+	GL0 struct{ V uint8 }
+	GL1 struct{ V uint16 }
+	GL2 struct{}
+)
+
+var lateTypes = []reflect.Type{reflect.TypeOf(GL0{}), reflect.TypeOf(GL1{}), reflect.TypeOf(GL2{})}
+
+const lateKey = 100 // key of late type k in gEnt.comps: lateKey+k
+
+// lateStep registers the next late type in both worlds (or reuses the last one) and adds it to an alive
+// entity that has all included types of the filter under construction.
+func (g *gWorld) lateStep(s gStep, included func(t int) bool) string {
+	if g.Wg.IsLocked() || len(g.ents) == 0 {
+		return ""
+	}
+	k := len(g.lateIDs)
+	if k < len(lateTypes) {
+		a, b := ecs.TypeID(g.Wg, lateTypes[k]), ecs.TypeID(g.Wc, lateTypes[k])
+		if a != b {
+			return fmt.Sprintf("HARNESS: late type %d got id %v in the generic world and %v in the core world", k, a, b)
+		}
+		g.lateIDs = append(g.lateIDs, a)
+	} else {
+		k = len(lateTypes) - 1
+	}
+	var pick *gEnt
+	n := len(g.ents)
+	start := ((s.F % n) + n) % n
+	for i := 0; i < n && pick == nil; i++ {
+		e := g.ents[(start+i)%n]
+		if !e.alive || e.comps[lateKey+k] {
+			continue
+		}
+		ok := true
+		for t := 0; t < nST; t++ {
+			if included(t) && !e.comps[t] {
+				ok = false
+				break
+			}
+		}
+		if ok {
+			pick = e
+		}
+	}
+	if pick == nil {
+		return ""
+	}
+	g.Wg.Add(pick.h, g.lateIDs[k])
+	g.Wc.Add(pick.h, g.lateIDs[k])
+	pick.comps[lateKey+k] = true
+	g.label("a component type registered after the filter was configured, on a matching entity")
+	return ""
 }
